@@ -292,7 +292,7 @@ def addMarker (ms : List Item) : List Item :=
   if hasMarker ms then ms else ms ++ [.marker]
 
 mutual
-  /-- `pre_process_extensibility_implied_type`: recursion through 'members' (and groups), not
+  /-- `pre_process_extensibility_implied_type`: recursion through 'members' (and groups) and
   through 'element' -/
   def extDesc : Desc → Desc
     | .mk a b => .mk a (extBody b)
@@ -300,7 +300,7 @@ mutual
   def extBody : Body → Body
     | .leaf => .leaf
     | .members ms => .members (addMarker (extItems ms))
-    | .element e => .element e
+    | .element e => .element (extDesc e)
   termination_by structural b => b
   def extItems : List Item → List Item
     | [] => []
